@@ -40,3 +40,9 @@ CASES += [
     dict(id='c15-opencheck-no-size', prop='C15', file='src/library/log/files/max_size.cpp', expect='R2',
          old="   mCurrentFilesize = fileSize();\n   return mCurrentFilesize < mMaxFileSize;", new="   return fileSize() < mMaxFileSize;"),
 ]
+
+CASES += [
+    dict(id='c15-open-rolls-inline', prop='C15', file='src/library/log/files/policy_base.cpp', expect='R4',
+         old="         throw std::runtime_error( \"open check failed for re-opened file\");\n\n      reOpenFile();",
+         new="         throw std::runtime_error( \"open check failed for re-opened file\");\n\n      mFile.close();\n      rollFiles();\n      mFile.open( filename, std::ios_base::out | std::ios_base::app | std::ios_base::ate);"),
+]
